@@ -91,14 +91,16 @@ class AddOrEnqueue:
         m = len(old.state.in_progress)
         q = len(old.state.queue)
         has_space = m < old.state.config.num_workers
+        used = set(x.worker_id for x in old.state.in_progress)
         return (
             # started on the smallest free slot; queue untouched
             len(state.in_progress) == m + 1
             and forall(m, lambda i: same(state.in_progress[i], old.state.in_progress[i]))
             and same(state.queue, old.state.queue)
             and forall(m, lambda j: old.state.in_progress[j].worker_id != state.in_progress[m].worker_id)
-            and forall(state.in_progress[m].worker_id,
-                       lambda w: exists(m, lambda j: old.state.in_progress[j].worker_id == w))
+            # ... and it is the SMALLEST free slot
+            and state.in_progress[m].worker_id
+            == [i for i in range(old.state.config.num_workers) if i not in used][0]
             and same(state.in_progress[m].event, event.event)
             and len(result) == 2
             and isinstance(result[0], CommandRunWorker)
